@@ -15,7 +15,8 @@ const rule = "A case is one history on a fresh database (hashmap ±shadow-delete
 	"Local/Internal/AlwaysMakeSecret/AlwaysMakeCrownjewel combinations, hook register/cancel (phases × pass/veto/replace), Put/PutNew/Delete/MakeSecret/" +
 	"MakeCrownJewel/SetAbsoluteExpiry/InsertValue/Get/PushUpdate on keys inside and outside the prefixes with all flag combinations, feeds drained after every " +
 	"operation (or not at all until > 1000 writes: overflow kind), raw storage reads around vetoed writes, delayed-write interfaces, malformed lines; " +
-	"config-push kind: the real config package injected as database, option updates pushed to exact/prefix/other subscriptions before and after cancel; " +
+	"config-push / config-db kinds: the real config package injected as database — option updates pushed, and its StorageInterface driven through the database interface " +
+	"(Put with / without / null Value, Delete, unregistered key, Get) and the config API (SetConfigOption, ReplaceConfig) with exact/prefix/other subscriptions, before and after cancel; " +
 	"concurrent kind: recorded traces of writers vs. Subscribe vs. Cancel (forced at the verif event points) replayed through the interleaving model. " +
 	"Non-trivial = at least one subscription or hook is active and at least one write succeeds while it is (sequential), or at least one send/cancel event (concurrent); " +
 	"distinct = different op/event sequences."
@@ -98,9 +99,11 @@ func (g *seqGen) beh(recPhase bool) string {
 		return "-"
 	case x < 75:
 		return "p"
-	case x < 87 || !recPhase:
+	case x < 85 || !recPhase:
 		g.vetoes = true
 		return fmt.Sprintf("v%d", 1+g.rng.Intn(9))
+	case x < 90:
+		return "x"
 	default:
 		return fmt.Sprintf("s%d", g.rng.Intn(10))
 	}
@@ -189,7 +192,9 @@ func (g *seqGen) op() {
 		g.writes++
 		g.r.Count("op:" + op)
 	case x < 84:
-		g.emit(fmt.Sprintf("get %s %s", pick(rng, genIfaces), g.key()))
+		key := g.key()
+		g.emit("raw " + key) // what is stored: the monitor's own reading of the get-hook clause starts from it
+		g.emit(fmt.Sprintf("get %s %s", pick(rng, genIfaces), key))
 		g.r.Count("op:get")
 	case x < 92:
 		if g.kind == "inj" || g.kind == "reg" || rng.Intn(100) < 30 {
@@ -343,6 +348,15 @@ func gen(r *hxlib.Run, emit func(hxlib.Case)) {
 	}
 	for i, n := 0, r.Budget(40, 400); i < n; i++ {
 		emit(hxlib.Case{Lines: []string{fmt.Sprintf("cfgpush %d", 1+r.Rng.Intn(5))}, Kind: "config-push", NonTrivial: i < 5, NoModel: true})
+	}
+	for i, n := 0, r.Budget(60, 600); i < n; i++ {
+		toks := []string{"cfgops"}
+		for j, m := 0, 2+r.Rng.Intn(7); j < m; j++ {
+			t := pick(r.Rng, cfgTokens)
+			toks = append(toks, t)
+			r.Count("cfgop:" + t)
+		}
+		emit(hxlib.Case{Lines: []string{strings.Join(toks, " ")}, Kind: "config-db", NonTrivial: true, NoModel: true})
 	}
 	genConcurrent(r, emit)
 }
